@@ -38,3 +38,34 @@ Theorem C04_best_is_first_covering arcs from until now : arcs <> [] -> Forall wf
   fetch_from_archive arcs ArchiveIDBest from until now = fetch_from_archive arcs id from until now.
 Proof. exact (fetch_best_is_named arcs from until now). Qed.
 Print Assumptions C04_best_is_first_covering.
+
+(** THE CONTRACT IN ONE EQUATION: for every list of well-formed archives (any contents), every
+    archive id — named, 'best' (-1) or out of range —, every window and every clock of the domain,
+    the shape of the result (error kind / no series / bounds, step, count) is [shape_spec] of the
+    layout, the window and the clock *)
+From WT Require Import Model.Update Model.Codec Model.Handle Model.FileImage Proofs.HostileProofs Proofs.ShapeProofs.
+
+Theorem C04_shape arcs id from until now :
+  arcs <> [] -> Forall wf_arc arcs ->
+  Forall (fun a => period a <= now /\ now + 2 * a_step a < TMAX) arcs ->
+  0 <= from < 2^32 -> 0 <= until < 2^32 ->
+  shape_of (fetch_from_archive arcs id from until now) = Some (shape_spec (layout_of arcs) id from until now).
+Proof. exact (fetch_shape arcs id from until now). Qed.
+Print Assumptions C04_shape.
+
+(** the shape never depends on what has been stored *)
+Theorem C04_content_independent arcs1 arcs2 id from until now :
+  layout_of arcs1 = layout_of arcs2 ->
+  arcs1 <> [] -> Forall wf_arc arcs1 -> Forall wf_arc arcs2 ->
+  Forall (fun a => period a <= now /\ now + 2 * a_step a < TMAX) arcs1 ->
+  Forall (fun a => period a <= now /\ now + 2 * a_step a < TMAX) arcs2 ->
+  0 <= from < 2^32 -> 0 <= until < 2^32 ->
+  shape_of (fetch_from_archive arcs1 id from until now) = shape_of (fetch_from_archive arcs2 id from until now).
+Proof. exact (fetch_shape_content_independent arcs1 arcs2 id from until now). Qed.
+Print Assumptions C04_content_independent.
+
+(** the premises are satisfiable, and the equation computes: a never-written 2-archive file *)
+Example C04_example :
+  shape_of (fetch_from_archive (create_arcs [(1, 4); (2, 8)]) (-1) 1000 1000 1002) = Some (SShape 1001 1002 1 1) /\
+  shape_spec [(1, 4); (2, 8)] (-1) 1000 1000 1002 = SShape 1001 1002 1 1.
+Proof. vm_compute. split; reflexivity. Qed.
